@@ -14,6 +14,7 @@ import (
 
 	"github.com/gopher-fleece/gleece/v2/cmd"
 	"github.com/gopher-fleece/gleece/v2/cmd/arguments"
+	"github.com/gopher-fleece/gleece/v2/core/pipeline"
 )
 
 func genInto(t *testing.T, dir string, mutate func(cfg map[string]any)) (routes, spec []byte, err error) {
@@ -149,6 +150,7 @@ var wantOps = []wantOp{
 	{"delete", "/alpha/items/{id}", "DeleteAlpha", "Alpha", true, "schemeB[admin,write]", []string{"id:path:true"}, "", "204", nil},
 	{"put", "/beta/things", "UpdateBeta", "Beta", false, "schemeD[read]", nil, "required", "200", nil},
 	{"get", "/beta/things", "ListBeta", "Beta", false, "schemeD[read]", []string{"filter:query:true"}, "", "200", nil},
+	{"patch", "/beta/things/{thingId}/", "PatchBeta", "Beta", false, "schemeD[read]", []string{"thingId:path:true"}, "optional", "202", []string{"409", "422"}},
 }
 
 func checkOperations(doc specDoc, version string, report func(class, msg string)) {
@@ -405,4 +407,74 @@ func TestRender(t *testing.T) {
 		os.Remove(filepath.Join(abs, "gleece.config.json"))
 	}
 	fmt.Println("VERIF-DONE")
+}
+
+// C19: analysing the unchanged project again in the same session gives the same result as the first analysis
+// and as a brand-new session, and the symbol graph does not grow.
+func TestVerifC19Reanalysis(t *testing.T) {
+	passes := 3
+	if os.Getenv("VERIF_TIER") == "thorough" {
+		passes = 6
+	}
+	cfg, err := cmd.LoadGleeceConfig("gleece.config.json")
+	if err != nil {
+		t.Fatal(err)
+	}
+	failed := false
+	fail := func(class, msg string) {
+		fmt.Printf("VERIF-FAIL: class=%s %s\n", class, msg)
+		failed = true
+	}
+	pipe, err := pipeline.NewGleecePipeline(cfg)
+	if err != nil {
+		t.Fatal(err)
+	}
+	first, err := pipe.Run()
+	if err != nil {
+		t.Fatalf("first analysis failed: %v", err)
+	}
+	// import name sets are unordered (they are sorted when the routes file is rendered)
+	canon := func(m pipeline.GleeceFlattenedMetadata) []byte {
+		for _, names := range m.Imports {
+			sort.Strings(names)
+		}
+		b, _ := json.Marshal(m)
+		return b
+	}
+	firstJSON := canon(first)
+	graphOf := func() string {
+		lines := strings.Split(pipe.Graph().String(), "\n")
+		sort.Strings(lines)
+		return strings.Join(lines, "\n")
+	}
+	firstGraph := graphOf()
+	for i := 2; i <= passes; i++ {
+		again, err := pipe.Run()
+		if err != nil {
+			fail("reanalysis-fails", fmt.Sprintf("analysis pass %d on the same pipeline failed: %v", i, err))
+			break
+		}
+		againJSON := canon(again)
+		if !bytes.Equal(firstJSON, againJSON) {
+			fail("reanalysis-differs", fmt.Sprintf("analysis pass %d differs from the first: %s", i, firstDiff(firstJSON, againJSON)))
+			break
+		}
+		if g := graphOf(); g != firstGraph {
+			fail("graph-changed", fmt.Sprintf("the symbol graph changed on analysis pass %d (length %d -> %d)", i, len(firstGraph), len(g)))
+			break
+		}
+	}
+	fresh, err := pipeline.NewGleecePipeline(cfg)
+	if err == nil {
+		fm, ferr := fresh.Run()
+		fj := canon(fm)
+		if ferr != nil || !bytes.Equal(fj, firstJSON) {
+			fail("fresh-session-differs", fmt.Sprintf("a brand-new session differs from the first analysis (err=%v)", ferr))
+		}
+	}
+	fmt.Printf("VERIF-CASES: %d (analysis passes on one pipeline + one fresh session)\n", passes+1)
+	fmt.Println("VERIF-DONE")
+	if failed {
+		t.Fail()
+	}
 }
